@@ -11,6 +11,7 @@ REGISTRY = {
     "C12": "engines.function_sim",
     "C13": "engines.stop_checks",
     "C18": "engines.dataset_sim",
+    "C19": "engines.classification_sim",
     "C14": "engines.resume_checks",
 }
 
